@@ -8,6 +8,7 @@ import (
 	"strings"
 
 	proto "github.com/anz-bank/sysl/pkg/sysl"
+	"github.com/anz-bank/sysl/pkg/syslwrapper"
 	"github.com/go-openapi/spec"
 	"github.com/sirupsen/logrus"
 )
@@ -33,7 +34,8 @@ const (
 func (e *EndpointExporter) exportChildStmts(returnStatusMap map[int]spec.Response, endpoint *proto.Endpoint) {
 	regex := regexp.MustCompile(`^\d{3}$`)
 	var retValues []string
-	for _, stmt := range endpoint.GetStmt() {
+	// also the return statements nested in if / else, loops and one-of alternatives
+	for _, stmt := range syslwrapper.ReturnStatements(endpoint.GetStmt()) {
 		if ret, ok := stmt.Stmt.(*proto.Statement_Ret); ok {
 			retValues = strings.Split(ret.Ret.GetPayload(), " <: ")
 			res := &spec.Response{}
